@@ -257,9 +257,73 @@ def wrapper_seek():
     })
 
 
+PA = ('C08', 'C14', 'C03')
+ASYNC_PRE = '''
+        broadcast use Array::axiom_len, axiom_zero_u8;
+        proof { <Self as BlockSizeUser>::BlockSize::block_size_bounds(); }
+        let ghost st0 = self.step();
+        let ghost a0 = self.abs();
+        let ghost d0 = data;
+'''
+
+
+def async_fn(v):
+    return FnC(props=PA, requires=['data.wf()'], ensures=[
+        ('out', PA, '''exists |blocks: Seq<Blk>, tail: Seq<u8>| flatg(blocks) + tail == data.in_val() && tail.len() < <Self as BlockSizeUser>::BlockSize::USIZE
+            && (forall |i: int| 0 <= i < blocks.len() ==> (#[trigger] blocks[i]).len() == <Self as BlockSizeUser>::BlockSize::USIZE)
+            && data.out_fut() == async_out(self.step(), self.abs(), blocks, tail, <Self as BlockSizeUser>::BlockSize::USIZE as nat)''')],
+        stmts={'0': ASYNC_PRE, '2': '''
+        let ghost gb = blocks;
+        let ghost gt = tail;
+        let ghost bsz = <Self as BlockSizeUser>::BlockSize::USIZE as nat;
+''', '4': '''
+        let ghost a1 = this__.abs();
+        let ghost ins = aviews(gb.in_val());
+        proof {
+            assert(tail.out_cur().len() < bsz) by { vstd::arithmetic::div_mod::lemma_mod_bound(d0.out_cur().len() as int, bsz as int); }
+        }
+''', '4.0.2': '''
+            proof {
+                axiom_zero_array::<u8, <Self as BlockSizeUser>::BlockSize>();
+                assert(block@.len() == bsz);
+                assert forall |i: int| 0 <= i < bsz implies block@[i] == zero_pad(gt.in_val(), bsz)[i] by {
+                    if i >= n { assert(block@[i] == zero_of::<Array<u8, <Self as BlockSizeUser>::BlockSize>>()@.skip(n as int)[i - n]); }
+                }
+                assert(block@ =~= zero_pad(gt.in_val(), bsz));
+            }
+            let ghost blk_in = block@;
+''', '4.0.end': '''
+            proof {
+                run_one(st0, a1, blk_in);
+                let r1 = run(st0, a1, seq![blk_in]);
+                assert(seq![block@][0] == r1.1[0]);
+                assert(block@ == st0(a1, blk_in).1);
+                assert(tail.out_cur() =~= st0(a1, zero_pad(gt.in_val(), bsz)).1.take(n as int));
+            }
+''', 'end': '''
+        proof {
+            let r = run(st0, a0, ins);
+            assert(r.0 == a1 && r.1 == aviews(gb.out_fut()));
+            assert forall |i: int| 0 <= i < ins.len() implies (#[trigger] ins[i]).len() == bsz by {}
+            if n == 0 {
+                assert(gt.out_fut() =~= Seq::<u8>::empty());
+                assert(gt.in_val() =~= Seq::<u8>::empty());
+                assert(flatg(r.1) + gt.out_fut() =~= flatg(r.1));
+            }
+            assert(flatg(ins) + gt.in_val() == d0.in_val());
+            assert(d0.out_fut() == async_out(st0, a0, ins, gt.in_val(), bsz));
+        }
+'''})
+
+
+def async_trait():
+    return Sel('trait AsyncStreamCipher', fns={'encrypt_inout': async_fn('encrypt'), 'decrypt_inout': async_fn('decrypt')},
+               drop_fns=['encrypt', 'decrypt', 'encrypt_b2b', 'decrypt_b2b'])
+
+
 def mods():
     return [
-        Mod('dep_streamapi', 'dep:cipher/src/stream.rs', items=[stream_trait(), seek_trait()], export=True),
+        Mod('dep_streamapi', 'dep:cipher/src/stream.rs', items=[async_trait(), stream_trait(), seek_trait()], export=True),
         Mod('dep_wrapper', 'dep:cipher/src/stream/wrapper.rs', items=[
             Sel('struct StreamCipherCoreWrapper'), wrapper_inherent(), wrapper_stream(), wrapper_seek()], export=True),
     ]
